@@ -1,4 +1,5 @@
 //! Monitor for property C14 (see /verif/DESIGN.md §6).
+pub mod world;
 use vcore::*;
 
 pub struct M;
